@@ -683,6 +683,12 @@ def main():
                 notes.append("%s: only pointer-level checks failed; not natively confirmable" % h["name"])
                 exit_code = max(exit_code, 2)
                 continue
+            if violations >= 1 and not os.environ.get("VERIF_REPLAY_ALL"):
+                # one natively confirmed violation decides the run; further failing harnesses are
+                # listed but not replayed (set VERIF_REPLAY_ALL=1 to replay all)
+                log("FAILED-NOT-REPLAYED property=%s harness=%s (%s)" % (pid, h["name"], r["detail"]))
+                r["status"] = "fail-not-replayed"
+                continue
             reproduced, rpath = replay_native(h, repo, hdir, tdir, logdir, pid, r)
             r["replay"] = rpath
             r["reproduced"] = reproduced
